@@ -792,7 +792,11 @@ func c19KeyConfusion(r *rt.Rec, rng *rand.Rand, rounds int) {
 				arg := ref.CopyOptions(pb.lo)
 				if pass == 1 {
 					// one options object, overwritten in place before every call
-					*reused = *arg
+					// field by field: whatever the object carries besides its exported
+					// fields (a cached digest, say) stays in place
+					reused.MaxElements, reused.Offset = arg.MaxElements, arg.Offset
+					reused.LowerAnchor, reused.UpperAnchor = arg.LowerAnchor, arg.UpperAnchor
+					reused.LatestAnchor, reused.FilterOptions = arg.LatestAnchor, arg.FilterOptions
 					arg = reused
 				}
 				got, err, closed := ref.Call(ctx, h, pb.q, arg)
